@@ -350,4 +350,4 @@ pub(super) fn base64_decode(value: &str) -> Result<Vec<u8>, String> {
 
 #[cfg(kani)]
 #[path = "/verif/harness/ripd/tasks__logs.rs"]
-mod verif_kani;
+pub mod verif_kani;
